@@ -85,7 +85,7 @@ def extra(ctx, avh, avm, tier, seed):
     os.makedirs(TW, exist_ok=True)
     known = {e["match"].get("oracle_key"): e for e in lib.load_known("C10") if e.get("match", {}).get("stream") == "files"}
     # ---- 1. file-heavy correspondence: implementation vs extracted Coq model (no load / duplicate: not modelled here)
-    n = 600 if tier == "thorough" else 120
+    n = 400 if tier == "thorough" else 64
     sf = os.path.join(TW, "c10_files_scripts.txt")
     rc, out, _ = lib.run([avh, "files", "gen", DUMP, str(seed), tier, sf, str(n)], cwd=TW, timeout=1800, env={"AVH_FILES_ENABLE": ""})
     ok_gen = rc == 0 and os.path.exists(sf)
@@ -96,6 +96,22 @@ def extra(ctx, avh, avm, tier, seed):
         b = [l for l in o2.split("\n") if l.startswith("S ")]
         bm = {l.split()[1]: l for l in b}
         mism = [int(l.split()[1]) for l in a if bm.get(l.split()[1]) != l]
+        # a difference counts only if it is reproduced by an isolated run of that script (operations that take longer than
+        # the harness' per-line timeout on a loaded machine are reported as HANG by one side only)
+        if mism:
+            scripts = treecommon.split_scripts(sf)
+            still = []
+            for k in mism[:12]:
+                p1 = os.path.join(TW, "c10_one.txt")
+                open(p1, "w").write(scripts.get(k, ""))
+                _, x1, _ = lib.run([avh, "tree", "run", DUMP, p1], cwd=TW, timeout=600)
+                _, x2, _ = lib.run([avm, DUMP, p1], cwd=TW, timeout=600)
+                s1 = [l for l in x1.split("\n") if l.startswith("S ")]
+                s2 = [l for l in x2.split("\n") if l.startswith("S ")]
+                if s1 != s2 or not s1:
+                    still.append(k)
+            ctx.coverage["file_heavy_flaky_differences_not_reproduced"] = len(mism[:12]) - len(still)
+            mism = still + mism[12:]
         detail = ""
         if mism:
             txt = treecommon.split_scripts(sf).get(mism[0], "")
